@@ -96,6 +96,14 @@ fn set_align(site: u64, n: u64) {
 }
 fn align_wait(site: &str) {
     let want = ALIGN_SITE.load(Ordering::Relaxed);
+    if want == 3 {
+        // stall mode: the producer rests between the successful try_send and the increment of `submitted`, long enough
+        // for the worker to deliver the metric and count it as drained (drained > submitted for a moment)
+        if site == "q.submit.sent" {
+            std::thread::sleep(Duration::from_millis(2));
+        }
+        return;
+    }
     if want == 0 || (want == 1) != (site == "q.submit.begin") || (want == 2) != (site == "q.submit.sent") {
         return;
     }
@@ -194,6 +202,16 @@ fn install_light() {
     })));
 }
 
+/// The trace identifies a metric by its text; the empty metric gets a label of its own (the trace spec uses "" for "none").
+/// `len` is always the length of the real text.
+fn lbl(m: &str) -> &str {
+    if m.is_empty() {
+        "<empty>"
+    } else {
+        m
+    }
+}
+
 // ------------------------------------------------------------------ the wrapped sink
 #[derive(Clone, Copy, PartialEq, Debug)]
 enum Out {
@@ -219,7 +237,7 @@ impl MetricSink for GateSink {
     fn emit(&self, m: &str) -> io::Result<usize> {
         let s = &self.0;
         s.entered.fetch_add(1, Ordering::SeqCst);
-        tr().ev(json!({"ev":"wenter","m":m,"tid":tid()}));
+        tr().ev(json!({"ev":"wenter","m":lbl(m),"tid":tid()}));
         point("w.enter", 0, 0);
         {
             let mut g = s.gate_open.lock().unwrap_or_else(|e| e.into_inner());
@@ -234,13 +252,13 @@ impl MetricSink for GateSink {
         let o = (s.outcome.lock().unwrap_or_else(|e| e.into_inner()))(m);
         match o {
             Out::Ok => {
-                tr().ev(json!({"ev":"wleave","m":m,"o":"ok","msg":""}));
+                tr().ev(json!({"ev":"wleave","m":lbl(m),"o":"ok","msg":""}));
                 s.left.fetch_add(1, Ordering::SeqCst);
                 Ok(m.len())
             }
             Out::Err => {
                 let msg = format!("wrapped-err-{}", m);
-                tr().ev(json!({"ev":"wleave","m":m,"o":"err","msg":msg}));
+                tr().ev(json!({"ev":"wleave","m":lbl(m),"o":"err","msg":msg}));
                 s.n_err.fetch_add(1, Ordering::SeqCst);
                 s.left.fetch_add(1, Ordering::SeqCst);
                 // every io::ErrorKind in turn (C16: "returns an error", whatever its kind)
@@ -248,7 +266,7 @@ impl MetricSink for GateSink {
                 Err(io::Error::new(crate::client::ALL_KINDS[h % crate::client::ALL_KINDS.len()].1, msg))
             }
             Out::Panic => {
-                tr().ev(json!({"ev":"wleave","m":m,"o":"panic","msg":""}));
+                tr().ev(json!({"ev":"wleave","m":lbl(m),"o":"panic","msg":""}));
                 s.n_panic.fetch_add(1, Ordering::SeqCst);
                 s.left.fetch_add(1, Ordering::SeqCst);
                 panic!("wrapped sink panics on {}", m);
@@ -358,19 +376,19 @@ fn hash_outcome(seed: u64, m: &str, perr: u32, ppanic: u32) -> Out {
 }
 
 fn do_emit(sink: &QueuingMetricSink, h: u64, m: &str) -> Option<bool> {
-    tr().ev(json!({"ev":"ecall","h":h,"m":m,"tid":tid()}));
+    tr().ev(json!({"ev":"ecall","h":h,"m":lbl(m),"tid":tid()}));
     let r = catch_unwind(AssertUnwindSafe(|| sink.emit(m)));
     match r {
         Ok(Ok(n)) => {
-            tr().ev(json!({"ev":"eret","m":m,"ok":true,"n":n,"msg":"","len":m.len()}));
+            tr().ev(json!({"ev":"eret","m":lbl(m),"ok":true,"n":n,"msg":"","len":m.len()}));
             Some(true)
         }
         Ok(Err(e)) => {
-            tr().ev(json!({"ev":"eret","m":m,"ok":false,"n":0,"msg":e.to_string(),"len":m.len()}));
+            tr().ev(json!({"ev":"eret","m":lbl(m),"ok":false,"n":0,"msg":e.to_string(),"len":m.len()}));
             Some(false)
         }
         Err(_) => {
-            tr().ev(json!({"ev":"epanic","m":m}));
+            tr().ev(json!({"ev":"epanic","m":lbl(m)}));
             None
         }
     }
@@ -501,6 +519,7 @@ pub fn stress(a: &Args) {
             tr().ev(json!({"ev":"clone","h":1,"h2":h}));
             let sink = original.clone();
             let okc = okcount.clone();
+            let hostile = run % 4 == 2;
             let mut prng = StdRng::seed_from_u64(rs ^ (p + 1) * 7919);
             // clones made by producers get ids from a disjoint range
             let mut my_next = 100 + p * 100;
@@ -508,7 +527,15 @@ pub fn stress(a: &Args) {
                 let mut sink = sink;
                 let mut h = h;
                 for i in 0..per {
-                    let m = format!("p{}.{}", p, i);
+                    // the queuing sink is a MetricSink for ANY string: every fourth run one producer also emits the
+                    // empty string, delimiters and a newline, multi-byte text and a very long line
+                    let m = match (hostile && p == 0, i) {
+                        (true, 1) => String::new(),
+                        (true, 2) => "x\ny|#:@,".to_string(),
+                        (true, 3) => "\u{e9}\u{4e16}\u{1f600}".repeat(20),
+                        (true, 4) => format!("L{}", "l".repeat(3000)),
+                        _ => format!("p{}.{}", p, i),
+                    };
                     if let Some(true) = do_emit(&sink, h, &m) {
                         okc.fetch_add(1, Ordering::SeqCst);
                     }
@@ -661,6 +688,39 @@ pub fn stress(a: &Args) {
         set_gate(&sh, true);
         wait_until(Duration::from_secs(10), || sh.left.load(Ordering::SeqCst) >= stat(|| live[0].0.submitted()).min(64));
         wait_until(Duration::from_secs(10), || stat(|| live[0].0.drained()) >= stat(|| live[0].0.submitted()));
+        sample(&live[0].0, "quiesce");
+        while let Some((s, h)) = live.pop() {
+            do_drop(s, h);
+        }
+        let released = wait_until(Duration::from_secs(10), || sh.dropped.load(Ordering::SeqCst));
+        tr().ev(json!({"ev":"end","released":released,"exited":EXITED.load(Ordering::SeqCst) > 0}));
+    }
+    // ---- stalled increment (C15 "never wraps around", C20): a producer rests between try_send and incr_submitted while the
+    // worker delivers the metric, so drained exceeds submitted for two milliseconds; a sampler reads the counters meanwhile
+    for r in 0..a.num("stall-rounds", 6) {
+        tr().ev(json!({"ev":"reset","cap":cap_json(None),"eh":false,"run":3000 + r,"stalled":true}));
+        EXITED.store(0, Ordering::SeqCst);
+        let sh = new_shared(true);
+        let original = build_sink(&sh, None, false);
+        set_align(3, 1);
+        tr().ev(json!({"ev":"clone","h":1,"h2":2}));
+        let s2 = original.clone();
+        let j = std::thread::spawn(move || {
+            do_emit(&s2, 2, "s.stalled");
+            (s2, 2u64)
+        });
+        let t0 = Instant::now();
+        while !j.is_finished() && t0.elapsed() < Duration::from_secs(5) {
+            sample(&original, "sample");
+            std::thread::sleep(Duration::from_micros(150));
+        }
+        set_align(0, 2);
+        let mut live: Vec<(QueuingMetricSink, u64)> = vec![(original, 1)];
+        if let Ok(x) = j.join() {
+            live.push(x);
+        }
+        total_emits += 1;
+        wait_until(Duration::from_secs(10), || stat(|| live[0].0.drained()) >= 1 && sh.left.load(Ordering::SeqCst) >= 1);
         sample(&live[0].0, "quiesce");
         while let Some((s, h)) = live.pop() {
             do_drop(s, h);
@@ -912,6 +972,18 @@ pub fn replay(a: &Args) {
                             return Err(format!("emit result: model ok={} code {:?}", st["ok"], r));
                         }
                         Ok(())
+                    }
+                    "Delegate" => {
+                        // flush() and stats() run the wrapped sink on THIS thread (logged by the wrapped sink as `wother`)
+                        let sink = handles.get(&h).ok_or("no such handle")?.clone();
+                        match catch_unwind(AssertUnwindSafe(|| (sink.flush().is_ok(), sink.stats()))) {
+                            Ok((true, _)) => Ok(()),
+                            Ok((false, _)) => Err("flush of the queuing sink failed although the wrapped flush is Ok".into()),
+                            Err(_) => {
+                                tr().ev(json!({"ev":"epanic","m":"flush/stats"}));
+                                Err("flush()/stats() panicked".into())
+                            }
+                        }
                     }
                     "Clone" => {
                         let h2 = st["h2"].as_u64().unwrap();
